@@ -6,6 +6,7 @@ import RactorModel.Lemmas.NodeState
 import RactorModel.Lemmas.CheckSession
 import RactorModel.Lemmas.HandshakeDial
 import RactorModel.Lemmas.HandshakeFail
+import RactorModel.Lemmas.HandshakeRefineB
 
 /-!
 # C18 — duplicate connections converge on one and the same link
@@ -338,6 +339,33 @@ theorem check_candidate_is_the_pre_step (nameA nameB : String) (w : List Link) (
       (electA (nameOrd nameB nameA) (candA w a)).contains a = false :=
   checkCandidate_is_stepPreA nameA nameB w a hnd h
 
+/-- (the two nodes compare the names the other way round) `peer_name.cmp(this_node_name)` on node B
+is the swap of node A's comparison, and it is `Equal` only for equal names — the facts behind
+`electB o = elect o.swap ∘ viewB` and the hypothesis `o ≠ .eq` ("distinct node names") of the
+convergence theorems. -/
+theorem name_order_is_antisymmetric (a b : String) :
+    nameOrd a b = (nameOrd b a).swap ∧ (nameOrd a b = .eq ↔ a = b) :=
+  ⟨nameOrd_swap a b, nameOrd_eq_iff a b⟩
+
+/-- (B-side tie of the `authB` step) `commit_authenticated` on node B's `NodeServerState` — its own
+name `nameB`, peer `nameA`, one registered session per connection open on B — elects with B's own
+comparison `nameOrd nameA nameB`, which is exactly the step's `electB (nameOrd nameB nameA)`, and
+names as losers exactly the sessions the step closes. -/
+theorem commit_is_the_auth_step_on_B (nameA nameB : String) (w : List Link) (b : Nat)
+    (h : pendingB w b = true) :
+    ∃ st', (nsOfB nameB nameA w).commit b =
+      some (st', (electB (nameOrd nameB nameA) (activeB (markB w b))).contains b,
+        ((markB w b).filter (fun l => l.authB && l.openB &&
+          !(electB (nameOrd nameB nameA) (activeB (markB w b))).contains l.c.idB)).map (·.c.idB)) :=
+  commit_is_stepAuthB nameB nameA w b h
+
+/-- (B-side tie of the `preB` step) -/
+theorem check_candidate_is_the_pre_step_on_B (nameA nameB : String) (w : List Link) (b : Nat)
+    (hnd : ((w.map (·.c)).map (·.idB)).Nodup) (h : pendingB w b = true) :
+    ((nsOfB nameB nameA w).checkCandidate b = .otherContinues) ↔
+      (electB (nameOrd nameB nameA) (candB w b)).contains b = false :=
+  checkCandidate_is_stepPreB nameB nameA w b hnd h
+
 /-- Non-vacuity: three connections (both nodes dialled, one legacy nonce); node B authenticates
 everything first, node A last, closes are noticed late — the run comes to rest with one link,
 and a different schedule comes to rest with the same link. -/
@@ -509,6 +537,9 @@ end C18
 #print axioms C18.with_failures_never_two_links
 #print axioms C18.commit_is_the_auth_step
 #print axioms C18.check_candidate_is_the_pre_step
+#print axioms C18.name_order_is_antisymmetric
+#print axioms C18.commit_is_the_auth_step_on_B
+#print axioms C18.check_candidate_is_the_pre_step_on_B
 #print axioms C18.unauthenticated_cannot_influence_commit
 #print axioms C18.unauthenticated_cannot_influence_check
 #print axioms C18.unauthenticated_cannot_influence_ready
